@@ -172,6 +172,20 @@ def world_obligations(run, label, which=("MODULO", "ISOLATION")):
         out.append(Obligation(oid, ass + [zb(a.guard), sh >= 1], i0 == want, func=key, kind="MODULO", meta=dict(m2, int_projection=True)))
   if "SLOT" in which:
     out.extend(slot_obligations(run, label, W, meta0, ass))
+  if "ISOLATION" in which and key in OWNER_HINTS:
+    # FLOW: this thread serves work packages of SEVERAL worlds in one loop (its owning world
+    # changes per iteration). Leaving the loop (return/break) on a condition computed from one
+    # world's data would drop the packages of the other worlds it still has to serve.
+    nworld_formals = {n for n, v in run.params.items() if isinstance(v, ArrRef) and (census.classify_formal(n) or (None, None, ()))[2][:1] == ("nworld",)}
+    for fkey, lineno, retf, brkf in getattr(ex, "loop_exits", []):
+      for what, flag in (("return", retf), ("break", brkf)):
+        oid = f"{key}[{label}]#FLOW.{what}@loop{lineno}"
+        m = dict(meta0, goal=f"a thread serving several worlds does not {what} out of its work-package loop on per-world data", lineno=lineno)
+        if flag is False or flag is True or not isinstance(flag, z3.ExprRef):
+          out.append(Result(oid=oid, status="discharged", kind="FLOW", func=key, backend="analysis", meta=m))
+          continue
+        used = {n.split("@")[0] for n in _uf_names(flag)} & nworld_formals
+        out.append(Result(oid=oid, status="violated" if used else "discharged", kind="FLOW", func=key, backend="dependency analysis", meta=dict(m, depends_on=sorted(used))))
   return out
 
 
@@ -264,6 +278,111 @@ def slot_obligations(run, label, W, meta0, ass):
   return out
 
 
+COUNTER_CAP = {"nefc": "njmax_in", "nacon": "naconmax_in", "ncollision": "naconmax_in", "efc_nnz": "njmax_nnz_in", "ncon": "naconmax_in"}
+
+
+def _stem(name):
+  for suf in ("_in", "_out"):
+    if name.endswith(suf):
+      return name[: -len(suf)]
+  return name
+
+
+def capacity_obligations(run, label):
+  """CAPACITY (C16): for a kernel with capacity parameters (njmax_in, naconmax_in, njmax_nnz_in)
+  and allocator counters (nefc, nacon, ncollision, efc_nnz):
+   DEMAND   the increment of a counter is not conditioned on that counter's own capacity or on
+            values it returned earlier (so the counter counts demand; relational two-copy check);
+   NOOVF    if every allocation fitted (ret + inc <= capacity, which is what 'no overflow bit'
+            gives by T4), then every store has the same guard, index and value as with any
+            larger capacity (relational: capacity := capacity' >= capacity)."""
+  ex = run.ex
+  key = run.key
+  out = []
+  caps = {n: v for n, v in run.params.items() if n in set(COUNTER_CAP.values()) and isinstance(v, z3.ExprRef)}
+  if not caps:
+    return out
+  formals = {v.aid: n for n, v in run.params.items() if isinstance(v, ArrRef)}
+  allocs = []  # (access, counter stem, cap name)
+  for a in ex.st.log:
+    if a.kind == "atomic" and a.op == "add" and a.arr.aid in formals:
+      st = _stem(formals[a.arr.aid])
+      if st in COUNTER_CAP and COUNTER_CAP[st] in caps and isinstance(a.value, tuple):
+        allocs.append((a, st, COUNTER_CAP[st]))
+  meta0 = {"function": key, "source_hash": run.info.source_hash, "specialisation": label}
+  # DEMAND
+  for i, (a, st, capn) in enumerate(allocs):
+    cap = caps[capn]
+    cap2 = z3.Int(capn + "'")
+    pairs = [(cap, cap2)]
+    for b, st2, _ in allocs:
+      if st2 == st and isinstance(b.value[1], z3.ExprRef):
+        pairs.append((b.value[1], z3.Int(b.value[1].decl().name() + "'")))
+    g = zb(a.guard)
+    g2 = z3.substitute(g, *pairs)
+    oid = f"{key}[{label}]#CAPACITY.demand.{st}@{a.lineno}"
+    m = dict(meta0, goal=f"the increment of {st} does not depend on {capn} nor on indices {st} returned earlier (the counter counts demand)", lineno=a.lineno)
+    if g.eq(g2):
+      out.append(Result(oid=oid, status="discharged", kind="CAPACITY", func=key, backend="syntactic", meta=m))
+    else:
+      out.append(Obligation(oid, list(ex.assumes), g == g2, func=key, kind="CAPACITY", meta=dict(m, timeout_ms=5000)))
+  # NOOVF
+  if allocs:
+    noovf = []
+    for a, st, capn in allocs:
+      inc, ret = a.value
+      fits = z3.And(lift(ret) >= 0, lift(ret) + lift(inc) <= caps[capn])
+      if st == "nefc":
+        fits = z3.And(fits, lift(inc) >= 1)  # a row allocation asks for at least one row (condim in {1,3,4,6})
+      noovf.append(z3.Implies(zb(a.guard), fits))
+    pairs = [(c, z3.Int(n + "''")) for n, c in caps.items()]
+    bigger = [p[1] >= p[0] for p in pairs]
+    hyp = list(ex.assumes) + noovf + bigger
+    n = 0
+    seen = set()
+    seen_g = set()
+    for a in ex.st.log:
+      if a.kind == "r" or a.guard is False:
+        continue
+      g = zb(a.guard)
+      g2 = z3.substitute(g, *pairs)
+      terms = [lift(i) for i in a.idx if i is not None]
+      vals = []
+      v = a.value[0] if (a.kind == "atomic" and isinstance(a.value, tuple)) else a.value
+      from .sym import Vec
+
+      if isinstance(v, Vec):
+        vals = [lift(c) for c in v.comps]
+      elif v is not None and not isinstance(v, tuple):
+        try:
+          vals = [lift(v)]
+        except Unsupported:
+          vals = []
+      diff_g = not g.eq(g2)
+      diff_t = [t for t in terms + vals if not t.eq(z3.substitute(t, *pairs))]
+      if not diff_g and not diff_t:
+        continue
+      sig = (g.get_id(), tuple(t.get_id() for t in diff_t))
+      if sig in seen:
+        continue
+      seen.add(sig)
+      conj = []
+      if diff_g and g.get_id() not in seen_g:
+        seen_g.add(g.get_id())
+        conj.append(g == g2)
+      if diff_t:
+        conj.append(z3.Implies(g, z3.And(*[t == z3.substitute(t, *pairs) for t in diff_t])))
+      if not conj:
+        continue
+      n += 1
+      oid = f"{key}[{label}]#CAPACITY.noovf.{a.arr.name}@{a.lineno}.{n}"
+      goal = z3.And(*conj)
+      out.append(Obligation(oid, hyp, goal, func=key, kind="CAPACITY", meta=dict(meta0, goal=f"if every allocation fits, the store to {a.arr.name} at line {a.lineno} happens under the same condition / at the same place as with any larger capacity", lineno=a.lineno, timeout_ms=4000, int_projection=True)))
+    if n == 0:
+      out.append(Result(oid=f"{key}[{label}]#CAPACITY.noovf", status="discharged", kind="CAPACITY", func=key, backend="syntactic", meta=dict(meta0, goal="no store depends on a capacity parameter")))
+  return out
+
+
 def kernel_group(key, which, dedupe_label=True):
   """group generator for one kernel: all specialisations"""
 
@@ -290,7 +409,10 @@ def kernel_group(key, which, dedupe_label=True):
         if cn in cl and isinstance(cl[cn], z3.ExprRef) and isinstance(run.params.get(formal), ArrRef):
           run.ex.assume(cl[cn] == run.ex.shape_sym(run.params[formal], k))
           out.append(Result(oid=f"{key}[{label}]#launch.closure.{cn}", status="discharged", kind="launch-binding", func=key, backend="launch-site analysis", meta={"function": key, "goal": f"every launch site passes {formal}.shape[{k}] for closure parameter {cn}"}))
-      out.extend(world_obligations(run, label, which))
+      if set(which) & {"MODULO", "ISOLATION", "SLOT"}:
+        out.extend(world_obligations(run, label, which))
+      if "CAPACITY" in which:
+        out.extend(capacity_obligations(run, label))
     return out
 
   return gen
